@@ -6,10 +6,57 @@ and every planning function gives the same answer (C07)
 -/
 namespace Sismic
 
-/-- `c'` is `c` with sibling states and transitions declared in another order -/
+/-- looking up a key in a list whose keys are unique does not depend on the order of the list -/
+theorem find?_perm_unique {α κ : Type} [DecidableEq κ] (key : α → κ) {l l' : List α} (hp : l'.Perm l)
+    (hn : (l.map key).Nodup) (k : κ) :
+    l'.find? (fun x => key x == k) = l.find? (fun x => key x == k) := by
+  have uniq : ∀ (m : List α), (m.map key).Nodup → ∀ x, m.find? (fun x => key x == k) = some x ↔ (x ∈ m ∧ key x = k) := by
+    intro m
+    induction m with
+    | nil => intro _ x; simp
+    | cons y ys ih =>
+      intro hm x
+      have hm' : key y ∉ ys.map key ∧ (ys.map key).Nodup := by
+        rw [List.map_cons] at hm; exact List.nodup_cons.mp hm
+      simp only [List.find?_cons]
+      by_cases hy : key y = k
+      · simp only [hy, beq_self_eq_true, Option.some.injEq, List.mem_cons]
+        constructor
+        · intro e; exact ⟨Or.inl e.symm, e ▸ hy⟩
+        · rintro ⟨e | e, hk⟩
+          · exact e.symm
+          · exfalso
+            exact hm'.1 (List.mem_map.mpr ⟨x, e, by rw [hk, hy]⟩)
+      · have : (key y == k) = false := by simp [hy]
+        simp only [this, List.mem_cons]
+        rw [ih hm'.2 x]
+        constructor
+        · rintro ⟨h1, h2⟩; exact ⟨Or.inr h1, h2⟩
+        · rintro ⟨h1 | h1, h2⟩
+          · exact absurd (h1 ▸ h2) hy
+          · exact ⟨h1, h2⟩
+  have hn' : (l'.map key).Nodup := (hp.map key).nodup_iff.mpr hn
+  cases h1 : l.find? (fun x => key x == k) with
+  | some x =>
+    rw [uniq l' hn' x]
+    have := (uniq l hn x).mp h1
+    exact ⟨hp.mem_iff.mpr this.1, this.2⟩
+  | none =>
+    cases h2 : l'.find? (fun x => key x == k) with
+    | none => rfl
+    | some x =>
+      exfalso
+      have := (uniq l' hn' x).mp h2
+      have h3 := (uniq l hn x).mpr ⟨hp.mem_iff.mp this.1, this.2⟩
+      rw [h1] at h3; cases h3
+
+/-- `c'` is `c` with states and transitions declared (registered) in another order -/
 structure ChartPerm (c c' : Chart) : Prop where
-  states : c'.states = c.states
-  parent : c'.parent = c.parent
+  states : c'.states.Perm c.states
+  names : (c.states.map (·.name)).Nodup
+  parent : c'.parent.Perm c.parent
+  parentKeys : (c.parent.map (·.1)).Nodup
+  oneRoot : ∀ e ∈ c.parent, ∀ e' ∈ c.parent, e.2 = none → e'.2 = none → e = e'
   children : ∀ n, (c'.childrenFor n).Perm (c.childrenFor n)
   transitions : c'.transitions.Perm c.transitions
 
@@ -17,11 +64,42 @@ namespace ChartPerm
 variable {c c' : Chart} (h : ChartPerm c c')
 include h
 
-theorem stateFor (n : Name) : c'.stateFor n = c.stateFor n := by simp [Chart.stateFor, h.states]
+theorem stateFor (n : Name) : c'.stateFor n = c.stateFor n := by
+  simp only [Chart.stateFor]
+  exact find?_perm_unique (·.name) h.states h.names n
+
 theorem hasState (n : Name) : c'.hasState n = c.hasState n := by simp [Chart.hasState, h.stateFor]
 theorem kindOf (n : Name) : c'.kindOf n = c.kindOf n := by simp [Chart.kindOf, h.stateFor]
-theorem parentFor (n : Name) : c'.parentFor n = c.parentFor n := by simp [Chart.parentFor, h.parent]
-theorem root : c'.root = c.root := by simp [Chart.root, h.parent]
+
+theorem parentFor (n : Name) : c'.parentFor n = c.parentFor n := by
+  simp only [Chart.parentFor]
+  rw [find?_perm_unique (·.1) h.parent h.parentKeys n]
+
+theorem root : c'.root = c.root := by
+  simp only [Chart.root]
+  congr 1
+  -- at most one entry without parent: the first one is the same in both lists
+  cases h1 : c.parent.find? (fun p => p.2 == none) with
+  | some x =>
+    have hx := List.find?_some h1
+    have hm := List.mem_of_find?_eq_some h1
+    cases h2 : c'.parent.find? (fun p => p.2 == none) with
+    | none =>
+      exfalso
+      have := List.find?_eq_none.mp h2 x (h.parent.mem_iff.mpr hm)
+      exact this hx
+    | some y =>
+      have hy := List.find?_some h2
+      have hm' := h.parent.mem_iff.mp (List.mem_of_find?_eq_some h2)
+      rw [h.oneRoot x hm y hm' (by simpa using hx) (by simpa using hy)]
+  | none =>
+    cases h2 : c'.parent.find? (fun p => p.2 == none) with
+    | none => rfl
+    | some y =>
+      exfalso
+      have hy := List.find?_some h2
+      have hm' := h.parent.mem_iff.mp (List.mem_of_find?_eq_some h2)
+      exact List.find?_eq_none.mp h1 y hm' hy
 
 theorem ancF (f : Nat) (s : Name) : c'.ancF f s = c.ancF f s := by
   induction f generalizing s with
@@ -29,7 +107,7 @@ theorem ancF (f : Nat) (s : Name) : c'.ancF f s = c.ancF f s := by
   | succ f ih => simp only [Chart.ancF, h.parentFor, ih]
 
 theorem ancestors (s : Name) : c'.ancestors s = c.ancestors s := by
-  simp [Chart.ancestors, h.ancF, h.states]
+  simp [Chart.ancestors, h.ancF, h.states.length_eq]
 
 theorem depth (s : Name) : c'.depth s = c.depth s := by simp [Chart.depth, h.ancestors]
 
@@ -61,8 +139,8 @@ theorem mem_children (n x : Name) : x ∈ c'.childrenFor n ↔ x ∈ c.childrenF
 theorem wf (hw : WFChart c) : WFChart c' where
   tree := ⟨by
     obtain ⟨r, h1, h2⟩ := hw.tree.rank
-    exact ⟨r, fun s p hp => h1 s p (by rw [← h.parentFor]; exact hp), fun s => by rw [h.states]; exact h2 s⟩⟩
-  names := by rw [h.states]; exact hw.names
+    exact ⟨r, fun s p hp => h1 s p (by rw [← h.parentFor]; exact hp), fun s => by rw [h.states.length_eq]; exact h2 s⟩⟩
+  names := ((h.states.map (·.name)).nodup_iff).mpr hw.names
   root := by
     obtain ⟨r, h1, h2, h3⟩ := hw.root
     exact ⟨r, by rw [h.root]; exact h1, by rw [h.parentFor]; exact h2, by rw [h.hasState]; exact h3⟩
